@@ -478,20 +478,22 @@ def judge(world, obs, placement, stats):
         sel = Selection(world)
         status = {}
         for ci, c in enumerate(cycles):
-            lazy = [(u, v) for u, v in G.cycle_edges(c)
-                    if not G.strict(u, v)]
+            lazy = [(u, v) for u, v in G.cycle_edges(c) if G.lazy(u, v)]
             if not lazy:
-                status[ci] = 'unavoidable'
+                status[ci] = 'unavoidable' if G.all_strict(c) else 'other'
                 continue
             sts = [sel.edge(G.edge[u][v]) for u, v in lazy]
-            if len(lazy) == len(c) and False:
-                pass
-            if all(s == 'unselected' for s in sts) and \
-                    len(lazy) >= 1 and all(
-                        G.strict(u, v) or sel.edge(G.edge[u][v]) ==
-                        'unselected' for u, v in G.cycle_edges(c)):
-                # every lazy edge unselected; strict edges remain, so the
-                # cycle is open at each lazy edge
+            # A cell-level edge may stand for several node-level cycles (the
+            # same cell read both in a branch and, say, through a range): the
+            # statement obliges only when NO branch on the cycle is selected,
+            # so every lazy occurrence on every edge - also on edges that have
+            # a strict occurrence as well - must be determinately unselected.
+            stray = any(
+                o['conds'] and sel.occurrence(o['conds']) != 'unselected'
+                for u, v in G.cycle_edges(c) for o in G.edge[u][v])
+            if all(s == 'unselected' for s in sts) and not stray:
+                # the cycle is open at each lazy edge and no branch on it is
+                # selected
                 status[ci] = 'avoided'
             else:
                 status[ci] = 'other'
